@@ -2,6 +2,7 @@ import Dashu.Driver.Loop
 import Dashu.Model.Int.Ops
 import Dashu.Model.Int.Pow
 import Dashu.Model.Int.PowCompose
+import Dashu.Model.Int.PowFull
 /-
   Driver of group `int` (C01, C02): runs the mirrored model; beside every result it evaluates the
   `Int`/`Nat` specification and appends ` !model-spec-mismatch` if they differ (cannot happen for
@@ -48,12 +49,12 @@ def dispatch : Dispatch := fun W op args =>
     pure (chk (natToHex (((ofNat W x).mul W s).value W)) (natToHex (x * x * x)))
   | "u.pow", [a, e] => do
     let x ← parseNat a; let n ← parseDecNat e
-    match ubigPowKernels W (ofNat W x) n with
+    match ubigPowFull W (ofNat W x) n with
     | .ok r => pure (chk (natToHex (r.value W)) (natToHex (x ^ n)))
     | .error k => pure (panic k.name)
   | "i.pow", [a, e] => do
     let x ← parseInt a; let n ← parseDecNat e
-    match ibigPowKernels W (.ofInt W x) n with
+    match ibigPowFull W (.ofInt W x) n with
     | .ok r => pure (chk (sreprToStr W r) (intToHex (x ^ n)))
     | .error k => pure (panic k.name)
   | "i.add", [a, b] => do
